@@ -104,7 +104,7 @@ func runC04(p *Program, r *Report) {
 	for _, m := range []struct {
 		r string
 		n int
-	}{{"C04.R1", 250}, {"C04.R2", 7}, {"C04.R3", 5}, {"C04.R4", 5}, {"C04.R5", 5}, {"C04.R6", 4}, {"C04.R7", 4}, {"C04.R8", 1}, {"C04.R9", 5}, {"C04.R10", 1}, {"C04.R11", 3}, {"C04.R12", 4}, {"C04.R13", 2}, {"C04.R14", 1}, {"C04.R15", 1}, {"C04.R16", 1}, {"C04.R17", 1}} {
+	}{{"C04.R1", 250}, {"C04.R2", 7}, {"C04.R3", 5}, {"C04.R4", 5}, {"C04.R5", 5}, {"C04.R6", 4}, {"C04.R7", 4}, {"C04.R8", 1}, {"C04.R9", 5}, {"C04.R10", 1}, {"C04.R11", 3}, {"C04.R12", 4}, {"C04.R13", 2}, {"C04.R14", 1}, {"C04.R15", 1}, {"C04.R16", 1}, {"C04.R17", 1}, {"C04.R18", 1}} {
 		r.Min(m.r, m.n)
 	}
 	pl, err := loadPolicy(p)
@@ -255,6 +255,7 @@ func runC04(p *Program, r *Report) {
 	checkTextAfterStartAction(p, r, "", "C04.R8")
 	checkActionMarksStart(p, r, "C04.R15")
 	checkVoidDropKeepsMixedElement(p, r, "C04.R17")
+	checkSpecialNamesAreOneElement(p, r, "C04.R18")
 	checkCandidateListsNonEmpty(p, r, textAfterStartValidator(p), "C04.R16")
 	checkContextEqStrict(p, r, "C04.R9")
 	checkNewAttributeStartsClean(p, r, "C04.R10")
